@@ -58,6 +58,9 @@ def add_unreachable(sp, rnd):
     named = [n['id'] for n in sp['nodes'] if n['kind'] == 'named' and not n['id'].startswith('U')]
     if rnd.random() < .7:
         sp['edges'].append([ids[-1], rnd.choice(named)])  # unreachable part points into the reachable graph
+    if rnd.random() < .5:
+        # an incompatibility constraint between a node of the reachable graph and one of the unreachable part
+        sp['incompat'].append([rnd.choice(named), rnd.choice(ids)])
     if rnd.random() < .3:
         o = 'U%d' % k
         sp['nodes'].append({'id': o, 'kind': 'named'})
